@@ -35,6 +35,11 @@ def handleTerminal (args : List String) : String :=
   | [f] => withPos f fun p => if isCheckmate p then "mate" else if isStalemate p then "stalemate" else "ongoing"
   | _ => "bad-request"
 
+def handleAnyLegal (args : List String) : String :=
+  match args with
+  | [f] => withPos f fun p => if (legalMoves p).isEmpty then "0" else "1"
+  | _ => "bad-request"
+
 def handleSan (args : List String) : String :=
   match args with
   | [f] => withPos f fun p =>
